@@ -4,6 +4,7 @@
 package c05
 
 import (
+	"math"
 	"encoding/json"
 	"fmt"
 	"time"
@@ -79,6 +80,10 @@ func (P) Gen(rng *sim.Rng, tier string) *harness.Case {
 		cfg.Specific = map[string]int64{}
 		for j, m := 0, rng.Range(1, 3); j < m; j++ {
 			cfg.Specific[alphabet[rng.Intn(len(alphabet))]] = int64(rng.Range(0, 8))
+		}
+		if rng.Chance(0.1) {
+			// a value that is practically unlimited
+			cfg.Specific[alphabet[rng.Intn(len(alphabet))]] = []int64{math.MaxInt64, math.MaxInt64 - 1, math.MaxInt64 / 2}[rng.Intn(3)]
 		}
 	}
 	D := uint64(cfg.DSec) * 1000
@@ -290,7 +295,7 @@ func (P) Exec(c *harness.Case) *harness.Outcome {
 			if t, has := spec[v]; has {
 				T = t
 			}
-			max := T + cfg.Burst
+			max := satAdd(T, cfg.Burst) // (thresholds up to MaxInt64 are valid: the harness saturates its own sums)
 			if cfg.Throttle {
 				max = T
 			}
@@ -344,8 +349,8 @@ func (P) Exec(c *harness.Case) *harness.Outcome {
 							win += a.tokens
 						}
 					}
-					if win > 2*max {
-						o.Fail("C05.envelope-single-duration", step, "t=%d value %v: %d tokens admitted within one duration (%d ms), more than 2*(T+burst)=%d", now, v, win, D, 2*max)
+					if win > satAdd(max, max) {
+						o.Fail("C05.envelope-single-duration", step, "t=%d value %v: %d tokens admitted within one duration (%d ms), more than 2*(T+burst)=%d", now, v, win, D, satAdd(max, max))
 						return o
 					}
 				}
@@ -380,4 +385,11 @@ func (P) Exec(c *harness.Case) *harness.Outcome {
 	}
 	o.Nontrivial = both >= 2
 	return o
+}
+
+func satAdd(a, b int64) int64 {
+	if a > 0 && b > math.MaxInt64-a {
+		return math.MaxInt64
+	}
+	return a + b
 }
